@@ -1,4 +1,5 @@
 import ArrProofs.Lemmas.C03Helper
+import ArrProofs.Lemmas.GenCore
 /-!
 # C03 — broadcasting follows the trailing-axis stretch rule, in shape and in values
 
@@ -605,5 +606,48 @@ example : commonBroadcastShape [[2, 1], [3], [1]] = .ok [2, 3] ∧
 example : commonBroadcastShape [[2], [1], [3]] = .err .BroadcastShapeMismatch ∧
     (⟨[1, 2], [2]⟩ : Arr Nat).broadcastH3 0 (⟨['a'], [1]⟩ : Arr Char) (⟨[true, false, true], [3]⟩ : Arr Bool)
       = .err .BroadcastShapeMismatch := by decide
+
+/-! ## The validator as TRANSLATED FROM THE SOURCE
+
+`ArrModel.Gen.Core.Vec_is_broadcastable` is regenerated from `src/validators/shape.rs` by `tools/rs2lean.py` on every run;
+`ArrProofs/Lemmas/GenCore.lean` proves it equal to `isBroadcastable` (the test every theorem above goes through). -/
+
+open ArrModel.Gen.Core in
+/-- **is_broadcastable (translated source) accepts exactly** the shape pairs that, aligned at the trailing axis, have no
+zero length on an aligned axis and equal lengths or a one on every aligned axis -/
+theorem gen_is_broadcastable_ok_iff (s t : List Nat) :
+    Vec_is_broadcastable s t = .ok () ↔ ∀ k, k < s.length → k < t.length →
+      fromEnd s k ≠ 0 ∧ fromEnd t k ≠ 0 ∧
+      (fromEnd s k = fromEnd t k ∨ fromEnd s k = 1 ∨ fromEnd t k = 1) := by
+  rw [is_broadcastable_ok_iff]; exact isBroadcastable_spec s t
+
+open ArrModel.Gen.Core in
+/-- … and refuses every other pair with `BroadcastShapeMismatch` (never a panic) -/
+theorem gen_is_broadcastable_err_iff (s t : List Nat) :
+    Vec_is_broadcastable s t = .err .BroadcastShapeMismatch ↔ isBroadcastable s t = false := by
+  rw [is_broadcastable_eq]; cases isBroadcastable s t <;> simp
+
+open ArrModel.Gen.Core in
+theorem gen_is_broadcastable_never_panics (s t : List Nat) : Vec_is_broadcastable s t ≠ .panic :=
+  is_broadcastable_never_panics s t
+
+open ArrModel.Gen.Core in
+/-- the `Array<T>` form forwards to the shape -/
+theorem gen_array_is_broadcastable (a : Arr α) (t : List Nat) :
+    Array_is_broadcastable a t = .ok () ↔ isBroadcastable a.shape t = true := by
+  rw [array_is_broadcastable_eq, is_broadcastable_ok_iff]
+
+open ArrModel.Gen.Core in
+/-- every stretchable pair passes the translated validator (so `broadcast_to` gets past its first test) -/
+theorem gen_is_broadcastable_of_broadcastTo (a : Arr α) (t : List Nat) (r : Arr α) (h : a.broadcastTo t = .ok r) :
+    Vec_is_broadcastable a.shape t = .ok () := by
+  rw [is_broadcastable_ok_iff]
+  cases hb : isBroadcastable a.shape t
+  · rw [broadcastTo_reject_unbroadcastable a t hb] at h; cases h
+  · rfl
+
+example : ArrModel.Gen.Core.Vec_is_broadcastable [2, 1, 3] [4, 1] = .ok () := by decide
+example : ArrModel.Gen.Core.Vec_is_broadcastable [2, 3] [3, 2] = .err .BroadcastShapeMismatch := by decide
+example : ArrModel.Gen.Core.Vec_is_broadcastable [2, 0] [1] = .err .BroadcastShapeMismatch := by decide
 
 end ArrModel.C03
